@@ -166,6 +166,73 @@ def ctr_case(cipher, layout, w, iv, little, pattern, acc, deep_ref=True):
     acc.seen("ctr_layouts", (cipher, layout, w, little))
 
 
+def ctr_output_case(cipher, layout, iv, little, before, ask, acc):
+    """Counter width 1 (256 blocks): `before` bytes are consumed, then ONE call asks for `ask` bytes with a caller-supplied
+    output buffer pre-filled with a marker.  Whatever the call does (return or raise), the buffer must hold no key stream past
+    the point where the counter repeats: positions past the limit keep the marker, positions below it hold the marker or
+    the correct key stream for their position."""
+    made = _mk_ctr(cipher, layout, 1, iv, little)
+    if made is None:
+        return
+    c, pre, suf = made
+    bs = 16 if cipher == "AES" else 8
+    limit = 256 * bs
+    acc.count("evaluations")
+    acc.count("ctr_output_cases")
+    acc.count("traces")
+    acc.count("transitions", 2)
+    case = {"part": "ctr-output", "cipher": cipher, "layout": layout, "iv": iv, "little": little, "before": before, "ask": ask}
+    ecb = _ecb(cipher)
+    ref = b"".join(ecb.encrypt(pre + bytes([(iv + i) & 255]) + suf) for i in range(256))
+    try:
+        if before:
+            c.encrypt(bytes(before))
+        buf = bytearray(b"\xa5" * ask)
+        try:
+            c.encrypt(bytes(ask), output=buf)
+            out = "ok"
+        except OverflowError:
+            out = "OverflowError"
+    except Exception as e:  # noqa
+        acc.violation("C11/CTR-w1/output-buffer/%s" % type(e).__name__, "unexpected %r" % e, case)
+        return
+    acc.seen("ctr_output_classes", (cipher, layout, out, before + ask > limit))
+    room = max(0, limit - before)
+    what = "%s CTR, 1-byte counter (%s, iv %d): %d bytes used, then encrypt(%d bytes, output=buf) -> %s" % (cipher, layout, iv, before, ask, out)
+    if (before + ask > limit) != (out == "OverflowError"):
+        acc.violation("C11/CTR-w1/output-buffer/limit-not-enforced-exactly", what, case, size=ask)
+        return
+    past = bytes(buf[room:])
+    if past.strip(b"\xa5"):
+        pos = next(i for i, x in enumerate(past) if x != 0xA5) + room
+        blk = bytes(buf[pos - pos % bs:pos - pos % bs + bs])
+        again = ref.find(blk) if len(blk) == bs else -1
+        acc.violation("C11/CTR-w1/output-buffer/keystream-past-the-limit-written",
+                      "%s: the caller's buffer holds data at offset %d, past the last usable key-stream byte%s"
+                      % (what, pos, " (it is the key stream of block %d again)" % (again // bs) if again >= 0 else ""), case, size=ask)
+    ok = bytes(buf[:room])
+    if out == "ok" and ok != ref[before:before + len(ok)]:
+        acc.violation("C11/CTR-w1/output-buffer/wrong-keystream", what, case, size=ask)
+    elif out != "ok":
+        for i, x in enumerate(ok):
+            if x != 0xA5 and x != ref[before + i]:
+                acc.violation("C11/CTR-w1/output-buffer/wrong-keystream", what + ": byte %d of the buffer is neither untouched nor key stream" % i,
+                              case, size=ask)
+                break
+
+
+def ctr_output_worker(shards):
+    acc = Acc()
+    for cipher, layout, iv, little in shards:
+        bs = 16 if cipher == "AES" else 8
+        limit = 256 * bs
+        for before in (0, 1, bs, limit - 9 * bs, limit - 8 * bs, limit - bs - 1, limit - bs, limit - 1, limit):
+            for ask in (1, bs - 1, bs, bs + 1, 8 * bs, 8 * bs + 1, 9 * bs, limit - before, limit - before + 1, limit + bs):
+                if ask > 0:
+                    ctr_output_case(cipher, layout, iv, little, before, ask, acc)
+    return acc
+
+
 def ctr_patterns_w1(bs):
     L = bs * 256
     return [
@@ -564,6 +631,10 @@ def run(ctx):
             for little in (False, True):
                 sh.append([("zero", cipher, w, little)])
     ctx.pmap(ctr_worker, sh)
+    osh = [[(cipher, layout, iv, little)] for cipher in ("AES", "DES3") for layout in (("prefix", "nonce") if q else ("prefix", "suffix", "both", "nonce"))
+           for iv in ((0, 255) if q else (0, 1, 128, 255)) for little in (False, True) if not (little and layout == "nonce")]
+    ctx.pmap(ctr_output_worker, osh)
+    ctx.require(ctx.acc.n.get("ctr_output_cases", 0) >= 80 * len(osh) // 2, "CTR output-buffer cases: only %d" % ctx.acc.n.get("ctr_output_cases", 0))
     depth = 4 if q else 5
     sh = []
     for nlen in (8, 12, 24):
@@ -601,6 +672,8 @@ def replay(case, acc):
     p = case["part"]
     if p == "ctr":
         ctr_case(case["cipher"], case["layout"], case["w"], case["iv"], case["little"], case["pattern"], acc)
+    elif p == "ctr-output":
+        ctr_output_case(case["cipher"], case["layout"], case["iv"], case["little"], case["before"], case["ask"], acc)
     elif p == "chacha":
         name = {8: "ChaCha20[n8]", 12: "ChaCha20[n12]", 24: "XChaCha20"}[case["nlen"]]
         chacha_history(case["nlen"], tuple(tuple(o) for o in case["history"]), acc, name)
